@@ -390,4 +390,36 @@ example :
     (runOps {} ops).out = ['b', '\n', 'c', 'a'] ∧ (runOps {} ops).acquired = [(1, ['b', '\n', 'c']), (0, ['a'])] := by
   decide
 
+/-! ### the atomic `write` / `flush` of `Ptk.Model.C20` is a whole call of this model -/
+
+/-- a whole call of thread `t`, nobody interfering -/
+def wholeCall (t : Nat) (c : Call) : List Op := [.call t c, .acq t, .rd t, .as t, .put t, .rel t]
+
+/-- **call_refines_write.**  From a state in which thread `t` is idle and the lock is free, a complete
+    `write(d)` call changes the line buffer and the queue exactly like the atomic step `doWrite` of the
+    coarse model, leaves the lock free and the thread idle. -/
+theorem call_refines_write (s : St) (cs : C20.St) (t : Nat) (d : Text)
+    (hidle : s.pc t = .idle) (hfree : s.owner = none)
+    (hb : cs.buffer = s.buffer) (hq : cs.queue = s.queue.map .text) :
+    let s' := runOps s (wholeCall t (.write d))
+    (doWrite cs d).buffer = s'.buffer ∧ (doWrite cs d).queue = s'.queue.map .text ∧
+    s'.owner = none ∧ s'.pc t = .idle ∧ s'.out = s.out := by
+  simp only [wholeCall, runOps, step, hidle, upd_same, hfree, Option.isSome_none, Bool.false_eq_true, and_false,
+    if_false, doWrite]
+  cases hr : rsplitNl d with
+  | none => simp [upd_same, hb, hq]
+  | some p =>
+    obtain ⟨b, a⟩ := p
+    simp [upd_same, hb, hq]
+
+/-- **call_refines_flush.**  The same for `flush()` and `doFlush`. -/
+theorem call_refines_flush (s : St) (cs : C20.St) (t : Nat)
+    (hidle : s.pc t = .idle) (hfree : s.owner = none)
+    (hb : cs.buffer = s.buffer) (hq : cs.queue = s.queue.map .text) :
+    let s' := runOps s (wholeCall t .flush)
+    (doFlush cs).buffer = s'.buffer ∧ (doFlush cs).queue = s'.queue.map .text ∧
+    s'.owner = none ∧ s'.pc t = .idle ∧ s'.out = s.out := by
+  simp [wholeCall, runOps, step, hidle, upd_same, hfree, doFlush, hb, hq]
+
+
 end Ptk.C20Lock
